@@ -17,6 +17,23 @@ def solve(args):
     c = (y * y - 1) % PMOD
     rs = P.roots([(-c) % PMOD, 0, 0, 1], rng)
     return (rs[0], y) if rs else None
+B1 = 155198655607781456406391640216936120121836107652948796323930557600032281009004493664981332883744016074664192874906
+def g2_special(args):
+    """a G2 x-coordinate x = x0 + x1 u (u^2 = -5) whose curve-equation right-hand side x^3 + b' (b' = B1 u) lies in the
+    base field Fp: the imaginary part 3 x0^2 x1 - 5 x1^3 + B1 must vanish, so x0 = sqrt((5 x1^3 - B1)/(3 x1)).  The square
+    root in Fp2 then takes its special branch (imaginary part zero; residue / non-residue of Fp decided by Euler)."""
+    x1, seed = args
+    P.Q = PMOD
+    rng = random.Random(seed)
+    t = (5 * pow(x1, 3, PMOD) - B1) * pow(3 * x1, -1, PMOD) % PMOD
+    rs = P.roots([(-t) % PMOD, 0, 1], rng)
+    if not rs:
+        return None
+    x0 = rs[0]
+    c = (pow(x0, 3, PMOD) - 15 * x0 * x1 * x1) % PMOD
+    if (3 * x0 * x0 * x1 - 5 * pow(x1, 3, PMOD) + B1) % PMOD != 0 or c == 0:
+        return None
+    return (x0, x1, pow(c, (PMOD - 1) // 2, PMOD) == 1)
 def main():
     import multiprocessing
     out, nrand, seed = sys.argv[1], int(sys.argv[2]), int(sys.argv[3])
@@ -33,11 +50,19 @@ def main():
     jobs = [(y, seed * 7 + i) for i, y in enumerate(dict.fromkeys(ys))]
     with multiprocessing.Pool(min(16, multiprocessing.cpu_count())) as pool:
         res = pool.map(solve, jobs, chunksize=4)
+    g2jobs = [(rng.randrange(1, PMOD), seed * 11 + i) for i in range(24 + nrand // 4)]
+    with multiprocessing.Pool(min(16, multiprocessing.cpu_count())) as pool:
+        g2 = [r for r in pool.map(g2_special, g2jobs, chunksize=2) if r]
     n = 0
     with open(out, "w") as f:
         for r in res:
             if r:
                 f.write(json.dumps({"x": le48(r[0]), "y": le48(r[1])}) + "\n"); n += 1
-    print(json.dumps({"candidates": len(jobs), "points": n}))
+        for (x0, x1, qr) in g2:
+            for flag in (0x00, 0x80):
+                b = le48(x0) + le48(x1)
+                b[95] |= flag
+                f.write(json.dumps({"deser": "G2", "b": b, "rhs_is_residue": qr}) + "\n")
+    print(json.dumps({"candidates": len(jobs), "points": n, "g2_rhs_in_Fp": len(g2), "g2_rhs_nonresidue": sum(1 for r in g2 if not r[2])}))
 if __name__ == "__main__":
     main()
